@@ -71,27 +71,74 @@ func verifAssert(label string, c bool) {
 
 //@ func (*ImmuStore).precommit
 //@   ensures nonnil: r1 == nil ==> r0 != nil
-// C07 (owner con-c07, see zz_verif_contracts_c07.go): replica path. `currPrecomittedTxID`, `currPrecommittedAlh` (read under
-// s.mutex through precommittedAlh()) and `blRoot` (the replica's own tree root at hdr.BlTxID, zero when BlTxID == 0) are
-// locals of the function: postconditions about "the value read under the lock" name them (documented exception).
+// C07 (owner con-c07b, see zz_verif_contracts_c07b.go and /verif/notes/con-c07b.md): replica path. A supplied header is
+// accepted only if the values computed locally under s.mutex match it, one clause per field. `currPrecomittedTxID`,
+// `currPrecommittedAlh` (read under s.mutex through precommittedAlh()) and `blRoot` (the replica's own tree root at
+// hdr.BlTxID, zero when BlTxID == 0) are locals of the function: postconditions about "the value read under the lock"
+// name them (documented exception to "no locals in contracts"). The `go` statement / channel receive are skipped by the
+// engine (received value arbitrary): only postconditions and callee preconditions are claimed (part file `only`).
+// Type invariants as preconditions: commit-state shape and lock invariant (as for performPrecommit); entry specs of an
+// OngoingTx are non-nil (set() appends non-nil specs).
+//@   divmod abstract
+//@   requires wf: spec_csWF(s)
+//@   requires elems: forall(k, 0, len(s.cLogBuf.buf), s.cLogBuf.buf[k] != nil)
+//@   requires inv: spec_csInv(s)
+//@   requires specs: otx != nil ==> forall(k, 0, len(otx.entries), otx.entries[k] != nil)
+//@   requires sepbuf: !sameobj(s._txbs, s) && !sameobj(s._txbs, s.cLogBuf)
 //@   ensures c07_id: r1 == nil && hdr != nil ==> hdr.ID == currPrecomittedTxID + 1
+//@   ensures c07_id_old: r1 == nil && hdr != nil ==> hdr.ID == old(s.inmemPrecommittedTxID) + 1
 //@   ensures c07_prev: r1 == nil && hdr != nil ==> hdr.PrevAlh == currPrecommittedAlh
+//@   ensures c07_prev_old: r1 == nil && hdr != nil ==> hdr.PrevAlh == old(s.inmemPrecommittedAlh)
 //@   ensures c07_blroot: r1 == nil && hdr != nil ==> hdr.BlRoot == blRoot
 //@   ensures c07_blroot0: r1 == nil && hdr != nil && hdr.BlTxID == 0 ==> be64(hdr.BlRoot[0:]) == 0 && be64(hdr.BlRoot[8:]) == 0 && be64(hdr.BlRoot[16:]) == 0 && be64(hdr.BlRoot[24:]) == 0
 //@   ensures c07_nent: r1 == nil && hdr != nil ==> hdr.NEntries == len(otx.entries)
+//@   ensures c07_md_nil: r1 == nil && hdr != nil && otx.metadata == nil ==> hdr.Metadata == nil
+//@   ensures c07_md_eq: r1 == nil && hdr != nil && otx.metadata != nil ==> otx.metadata.Equal(hdr.Metadata)
 //@   ensures c07_eh: r1 == nil && hdr != nil && !skipIntegrityCheck ==> r0.Eh == hdr.Eh
 //@   ensures c07_ret_id: r1 == nil && hdr != nil ==> r0.ID == hdr.ID
 //@   ensures c07_ret_ts: r1 == nil && hdr != nil ==> r0.Ts == hdr.Ts
 //@   ensures c07_ret_ver: r1 == nil && hdr != nil ==> r0.Version == hdr.Version
 //@   ensures c07_ret_bl: r1 == nil && hdr != nil ==> r0.BlTxID == hdr.BlTxID
-//@   ensures c07_ret_blroot: r1 == nil && hdr != nil ==> r0.BlRoot == hdr.BlRoot
+//@   ensures c07_ret_blroot0: r1 == nil && hdr != nil && hdr.BlTxID == 0 ==> be64(r0.BlRoot[0:]) == 0 && be64(r0.BlRoot[8:]) == 0 && be64(r0.BlRoot[16:]) == 0 && be64(r0.BlRoot[24:]) == 0
 //@   ensures c07_ret_prev: r1 == nil && hdr != nil ==> r0.PrevAlh == hdr.PrevAlh
 //@   ensures c07_ret_nent: r1 == nil && hdr != nil ==> r0.NEntries == hdr.NEntries
+//@   ensures c07_hdr_kept: hdr != nil ==> unchanged(hdr)
+//@   ensures c07_dup: hdr != nil && old(s.inmemPrecommittedTxID) >= hdr.ID ==> r1 != nil
 //@   ensures c07_rej_cid: r1 != nil ==> s.committedTxID == old(s.committedTxID)
 //@   ensures c07_rej_calh: r1 != nil ==> s.committedAlh == old(s.committedAlh)
 //@   ensures c07_rej_pid: r1 != nil ==> s.inmemPrecommittedTxID == old(s.inmemPrecommittedTxID)
 //@   ensures c07_rej_palh: r1 != nil ==> s.inmemPrecommittedAlh == old(s.inmemPrecommittedAlh)
 //@   ensures c07_rej_sz: r1 != nil ==> s.precommittedTxLogSize == old(s.precommittedTxLogSize)
+// both loops write the pooled holders tx.entries[i], which no frame expression can name: `assigns *` + invariants.
+//@   loop 1 assigns *
+//@   loop 1 invariant a_s: unchanged(s)
+//@   loop 1 invariant a_buf: unchanged(s.cLogBuf)
+//@   loop 1 invariant a_arr: unchanged(s.cLogBuf.buf)
+//@   loop 1 invariant a_otx: unchanged(otx)
+//@   loop 1 invariant a_ents: unchanged(otx.entries)
+//@   loop 1 invariant a_hdr: hdr != nil ==> unchanged(hdr)
+//@   loop 1 invariant a_tx: unchanged(tx)
+//@   loop 1 invariant a_txhdr: tx.header != nil
+//@   loop 1 invariant a_sep1: !sameobj(s._txbs, tx)
+//@   loop 1 invariant a_sep2: !sameobj(s._txbs, tx.header)
+//@   loop 1 invariant a_ver: hdr != nil ==> tx.header.Version == hdr.Version
+//@   loop 1 invariant a_md: tx.header.Metadata == otx.metadata
+//@   loop 1 invariant a_nent: tx.header.NEntries == len(otx.entries)
+//@   loop 2 assigns *
+//@   loop 2 invariant b_s: unchanged(s)
+//@   loop 2 invariant b_buf: unchanged(s.cLogBuf)
+//@   loop 2 invariant b_arr: unchanged(s.cLogBuf.buf)
+//@   loop 2 invariant b_otx: unchanged(otx)
+//@   loop 2 invariant b_ents: unchanged(otx.entries)
+//@   loop 2 invariant b_hdr: hdr != nil ==> unchanged(hdr)
+//@   loop 2 invariant b_tx: unchanged(tx)
+//@   loop 2 invariant b_txhdr: tx.header != nil
+//@   loop 2 invariant b_sep1: !sameobj(s._txbs, tx)
+//@   loop 2 invariant b_sep2: !sameobj(s._txbs, tx.header)
+//@   loop 2 invariant b_ver: hdr != nil ==> tx.header.Version == hdr.Version
+//@   loop 2 invariant b_ver01: tx.header.Version == 0 || tx.header.Version == 1
+//@   loop 2 invariant b_md: tx.header.Metadata == otx.metadata
+//@   loop 2 invariant b_nent: tx.header.NEntries == len(otx.entries)
 
 //@ func (*OngoingTx).set
 
